@@ -87,7 +87,7 @@ def sample_stacks(ctx, target, directed=False):
     which the prototype-cell search has to look into neighbouring periodic images) — used when a proof/correspondence is broken"""
     from matid.clustering import SBC
     import crystals
-    rng = np.random.default_rng(ctx.seed + (33 if directed else 3))
+    rng = np.random.default_rng(common.sample_seed(ctx) + (33 if directed else 3))
     done = k = 0
     f_ok = f_fail = 0
     bad = []
